@@ -21,6 +21,7 @@ package main
 import (
 	"fmt"
 	"go/ast"
+	"go/scanner"
 	"go/token"
 	"strings"
 )
@@ -113,69 +114,319 @@ func aboReturnsNil(body *ast.BlockStmt) (isReturn, isNil bool) {
 	return true, false
 }
 
-func aboEvents(fset *token.FileSet, byName map[string][]*peFunc, stmts []ast.Stmt) []string {
-	var ev []string
-	lastCall := ""
-	emitCall := func(e ast.Expr) {
-		if ce, name, ok := aboCallee(e); ok {
-			lastCall = name
-			text := exprString(fset, ce.Fun) // the printed callee expression, e.g. this.blockStore.NewBatch
-			if aboWrites(byName, name) || aboFuncLitWrites(byName, ce) {
-				ev = append(ev, "write:"+text)
+// ---- flattened, canonical event extraction -------------------------------------------------------------------------------
+//
+// An entry point (AddBlock, SubmitBlock, AddHeader) is turned into ONE list of events in execution order.  Calls of same-package
+// pipeline helpers are expanded in place (their parameters replaced by the actual arguments), so it does not matter whether a
+// block of statements lives in the entry point, in `saveBlock`/`submitBlock`/`saveBlockTo*Store`/`verifyHeader` or in a helper that
+// was extracted from (or inlined into) one of them.  Texts are canonical: simply-defined locals are inlined (astnorm.inlineLocals),
+// locals bound by a multi-value call are written `<callee>#<i>`, the receiver is written `this`, white space is dropped — renaming
+// a local or hoisting a sub-expression does not change them.  `if c { return e }`, `if !c { … } else { return e }` and
+// `if c { return e } else { … }` give the same guard event.
+//
+// kinds: guard (return of an error under a condition), stop (return nil under a condition), errguard (propagation of the error of
+// the preceding leaf call, text = its bare name), write (leaf call from which a store-writing method or in-memory mutator is
+// reachable; text = canonical callee), and the same with prefix `c` for events inside a conditional block that does not return
+// (cguard, cstop, cerrguard, cwrite).  Plain calls are not listed.
+
+type aboFlat struct {
+	fset   *token.FileSet
+	byName map[string][]*peFunc
+	funcs  map[string]*ast.FuncDecl
+	ev     []string
+	stack  map[string]bool
+}
+
+// rename identifiers of a flat expression text (not those that follow a '.')
+func aboRename(text string, ren map[string]string) string {
+	var sc scanner.Scanner
+	fs := token.NewFileSet()
+	file := fs.AddFile("", fs.Base(), len(text))
+	sc.Init(file, []byte(text), nil, 0)
+	var out strings.Builder
+	prevDot := false
+	last := 0
+	for {
+		pos, tok, lit := sc.Scan()
+		if tok == token.EOF {
+			break
+		}
+		off := file.Offset(pos)
+		if tok == token.SEMICOLON && lit == "\n" {
+			continue
+		}
+		out.WriteString(text[last:off])
+		switch {
+		case tok == token.IDENT:
+			if r, ok := ren[lit]; ok && !prevDot {
+				out.WriteString(r)
 			} else {
-				ev = append(ev, "call:"+text)
+				out.WriteString(lit)
+			}
+			last = off + len(lit)
+		default:
+			l := lit
+			if l == "" {
+				l = tok.String()
+			}
+			out.WriteString(text[off : off+len(l)])
+			last = off + len(l)
+		}
+		prevDot = tok == token.PERIOD
+	}
+	if last < len(text) {
+		out.WriteString(text[last:])
+	}
+	return out.String()
+}
+
+type aboScope struct {
+	fd   *ast.FuncDecl
+	defs *defTable
+	ren  map[string]string
+}
+
+func (a *aboFlat) scopeOf(fd *ast.FuncDecl, args map[string]string) *aboScope {
+	sc := &aboScope{fd: fd, defs: singleDefs(fd), ren: map[string]string{}}
+	if fd.Recv != nil && len(fd.Recv.List) == 1 && len(fd.Recv.List[0].Names) == 1 {
+		sc.ren[fd.Recv.List[0].Names[0].Name] = "this"
+	}
+	for k, v := range args {
+		sc.ren[k] = v
+	}
+	ast.Inspect(fd.Body, func(n ast.Node) bool {
+		as, ok := n.(*ast.AssignStmt)
+		if !ok || len(as.Rhs) != 1 || len(as.Lhs) < 2 {
+			return true
+		}
+		if _, name, ok := aboCallee(as.Rhs[0]); ok {
+			for i, l := range as.Lhs {
+				if id, ok := l.(*ast.Ident); ok && id.Name != "_" && id.Name != "err" {
+					if _, had := sc.ren[id.Name]; !had {
+						sc.ren[id.Name] = fmt.Sprintf("%s#%d", name, i)
+					}
+				}
+			}
+		}
+		return true
+	})
+	return sc
+}
+
+func (a *aboFlat) canon(sc *aboScope, e ast.Expr) string {
+	return aboRename(flat(a.fset, stripParens(inlineLocals(e, sc.defs))), sc.ren)
+}
+
+func aboReturnsErrorLast(fd *ast.FuncDecl) bool {
+	if fd.Type.Results == nil || len(fd.Type.Results.List) == 0 {
+		return true // no result: a procedure of the pipeline
+	}
+	last := fd.Type.Results.List[len(fd.Type.Results.List)-1]
+	id, ok := last.Type.(*ast.Ident)
+	return ok && id.Name == "error"
+}
+
+var aboOpaque = map[string]bool{"executeBlock": true, "verifyCrossChainMsg": true}
+
+// expandable: a same-package function of the pipeline whose statements are listed in place of the call
+func (a *aboFlat) expandable(ce *ast.CallExpr, name string, inVerify bool) *ast.FuncDecl {
+	fd := calleeOf(a.funcs, ce)
+	if fd == nil || fd.Name.Name != name || aboOpaque[name] || a.stack[name] || !aboReturnsErrorLast(fd) {
+		return nil
+	}
+	if fd.Recv == nil || len(fd.Recv.List) != 1 || recvTypeName(fd.Recv.List[0].Type) != "LedgerStoreImp" {
+		return nil // a method of one of the stores / caches, or a package-level function: a leaf
+	}
+	if se, ok := ce.Fun.(*ast.SelectorExpr); ok { // this.f(..) only, not this.blockStore.f(..) or pkg.f(..)
+		if _, ok := se.X.(*ast.Ident); !ok {
+			return nil
+		}
+	}
+	if aboWrites(a.byName, name) && !memMutators[name] {
+		return fd
+	}
+	if name == "verifyHeader" || (inVerify && !strings.HasPrefix(strings.ToLower(name), "get")) {
+		return fd
+	}
+	return nil
+}
+
+// entryArgs names the parameters of an entry point by their TYPE, so the texts do not depend on the parameter names and are the
+// same for the block paths and the header path: a `*types.Block` parameter b is written `block`, `b.Header` is written `header`
+func (a *aboFlat) entryArgs(fd *ast.FuncDecl) (map[string]string, string) {
+	args := map[string]string{}
+	blockParam := ""
+	for _, fl := range fd.Type.Params.List {
+		t := flat(a.fset, fl.Type)
+		for _, n := range fl.Names {
+			switch t {
+			case "*types.Block":
+				args[n.Name] = "block"
+				blockParam = n.Name
+			case "*types.Header":
+				args[n.Name] = "header"
+			case "*types.CrossChainMsg":
+				args[n.Name] = "ccMsg"
+			case "common.Uint256":
+				args[n.Name] = "stateMerkleRoot"
+			case "store.ExecuteResult":
+				args[n.Name] = "result"
 			}
 		}
 	}
-	for _, st := range stmts {
+	return args, blockParam
+}
+
+func (a *aboFlat) run(fd *ast.FuncDecl, args map[string]string, cond bool, inVerify bool) {
+	a.stack[fd.Name.Name] = true
+	defer delete(a.stack, fd.Name.Name)
+	sc := a.scopeOf(fd, args)
+	a.stmts(sc, fd.Body.List, cond, inVerify || fd.Name.Name == "verifyHeader")
+}
+
+func (a *aboFlat) emit(cond bool, kind, text string) {
+	if cond {
+		kind = "c" + kind
+	}
+	a.ev = append(a.ev, kind+":"+text)
+}
+
+func (a *aboFlat) stmts(sc *aboScope, list []ast.Stmt, cond bool, inVerify bool) {
+	lastCall := ""
+	errVars := map[string]bool{} // identifiers bound to a result of the most recent call statement
+	bind := func(lhs []ast.Expr) {
+		errVars = map[string]bool{}
+		for _, l := range lhs {
+			if id, ok := l.(*ast.Ident); ok {
+				errVars[id.Name] = true
+			}
+		}
+	}
+	var call func(e ast.Expr)
+	call = func(e ast.Expr) {
+		ce, name, ok := aboCallee(e)
+		if !ok {
+			return
+		}
+		for _, arg := range ce.Args { // calls nested in the arguments run first
+			if _, _, ok := aboCallee(arg); ok {
+				call(arg)
+			}
+		}
+		if fd := a.expandable(ce, name, inVerify); fd != nil {
+			args := map[string]string{}
+			i := 0
+			for _, fl := range fd.Type.Params.List {
+				for _, n := range fl.Names {
+					if i < len(ce.Args) {
+						args[n.Name] = a.canon(sc, ce.Args[i])
+					}
+					i++
+				}
+			}
+			a.run(fd, args, cond, inVerify)
+			lastCall = "" // its own guards were listed; the caller's `if err != nil` only passes them on
+			return
+		}
+		lastCall = name
+		if aboWrites(a.byName, name) || aboFuncLitWrites(a.byName, ce) {
+			text := a.canon(sc, ce.Fun)
+			// a method of a value held in a parameter / local (not reached through the receiver): the variable is dropped, so the
+			// text does not depend on whether the value was passed in or computed here
+			if i := strings.Index(text, "."); i > 0 && !strings.HasPrefix(text, "this.") {
+				text = text[i:]
+			}
+			a.emit(cond, "write", text)
+		}
+	}
+	exits := func(b *ast.BlockStmt) (bool, bool) { return aboReturnsNil(b) }
+	for _, st := range list {
 		switch s := st.(type) {
 		case *ast.ExprStmt:
-			emitCall(s.X)
+			call(s.X)
 		case *ast.AssignStmt:
 			for _, r := range s.Rhs {
-				emitCall(r)
+				call(r)
 			}
+			bind(s.Lhs)
 		case *ast.ReturnStmt:
 			for _, r := range s.Results {
-				emitCall(r)
+				call(r)
 			}
+		case *ast.DeclStmt, *ast.DeferStmt, *ast.IncDecStmt, *ast.EmptyStmt:
 		case *ast.RangeStmt:
-			ev = append(ev, "loop:"+exprString(fset, s.X))
-			ev = append(ev, aboEvents(fset, byName, s.Body.List)...)
-			ev = append(ev, "endloop")
+			a.stmts(sc, s.Body.List, cond, inVerify)
 		case *ast.ForStmt:
-			ev = append(ev, "loop:")
-			ev = append(ev, aboEvents(fset, byName, s.Body.List)...)
-			ev = append(ev, "endloop")
+			a.stmts(sc, s.Body.List, cond, inVerify)
+		case *ast.BlockStmt:
+			a.stmts(sc, s.List, cond, inVerify)
 		case *ast.IfStmt:
 			if s.Init != nil {
 				if as, ok := s.Init.(*ast.AssignStmt); ok {
 					for _, r := range as.Rhs {
-						emitCall(r)
+						call(r)
+					}
+					bind(as.Lhs)
+				}
+			}
+			ctext := a.canon(sc, s.Cond)
+			// `x != nil` where x was just bound to a result of the preceding call: propagation of that call's error
+			if be, ok := stripParens(s.Cond).(*ast.BinaryExpr); ok && be.Op == token.NEQ {
+				if x, ok := be.X.(*ast.Ident); ok && errVars[x.Name] {
+					if y, ok := be.Y.(*ast.Ident); ok && y.Name == "nil" {
+						ctext = "err!=nil"
 					}
 				}
 			}
-			cond := exprString(fset, s.Cond)
-			isRet, isNil := aboReturnsNil(s.Body)
-			switch {
-			case isRet && isNil:
-				ev = append(ev, "stop:"+cond)
-			case isRet && cond == "err != nil":
-				ev = append(ev, "errguard:"+lastCall)
-			case isRet:
-				ev = append(ev, "guard:"+cond)
-			default:
-				ev = append(ev, "block:"+cond)
-				ev = append(ev, aboEvents(fset, byName, s.Body.List)...)
+			if strings.Contains(ctext, "\"vbft\"") { // the consensus-type branch of verifyHeader: the non-VBFT path is modelled
 				if eb, ok := s.Else.(*ast.BlockStmt); ok {
-					ev = append(ev, "else")
-					ev = append(ev, aboEvents(fset, byName, eb.List)...)
+					a.stmts(sc, eb.List, cond, inVerify)
 				}
-				ev = append(ev, "endblock")
+				continue
+			}
+			guardEv := func(text string, isNil bool) {
+				switch {
+				case isNil:
+					a.emit(cond, "stop", text)
+				case text == "err!=nil" && lastCall != "":
+					a.emit(cond, "errguard", lastCall)
+				case text == "err!=nil":
+					// passes on the error of an expanded helper: nothing of its own
+				default:
+					a.emit(cond, "guard", text)
+				}
+			}
+			isRet, isNil := exits(s.Body)
+			eb, hasElse := s.Else.(*ast.BlockStmt)
+			switch {
+			case isRet:
+				for _, inner := range s.Body.List[:len(s.Body.List)-1] { // statements before the return (logging…)
+					a.stmts(sc, []ast.Stmt{inner}, true, inVerify)
+				}
+				guardEv(ctext, isNil)
+				if hasElse {
+					a.stmts(sc, eb.List, cond, inVerify)
+				}
+			case hasElse:
+				if eRet, eNil := exits(eb); eRet {
+					guardEv("!("+ctext+")", eNil)
+					a.stmts(sc, s.Body.List, cond, inVerify)
+				} else {
+					a.stmts(sc, s.Body.List, true, inVerify)
+					a.stmts(sc, eb.List, true, inVerify)
+				}
+			default:
+				a.stmts(sc, s.Body.List, true, inVerify)
+				if ei, ok := s.Else.(*ast.IfStmt); ok {
+					a.stmts(sc, []ast.Stmt{ei}, true, inVerify)
+				}
+			}
+		case *ast.SwitchStmt:
+			for _, c := range s.Body.List {
+				a.stmts(sc, c.(*ast.CaseClause).Body, true, inVerify)
 			}
 		}
 	}
-	return ev
 }
 
 func leanPairList(evs []string) string {
@@ -191,72 +442,42 @@ func leanPairList(evs []string) string {
 }
 
 func genAddBlockOrder(repo string) (string, error) {
-	const file = "core/store/ledgerstore/ledger_store.go"
-	byName, err := peCollect(repo, "core/store/ledgerstore")
+	const dir = "core/store/ledgerstore"
+	byName, err := peCollect(repo, dir)
 	if err != nil {
 		return "", err
 	}
-	fset, f, err := parseFile(repo, file)
+	fset, funcs, err := pkgFuncs(repo, dir)
 	if err != nil {
 		return "", err
 	}
 	var sb strings.Builder
 	sb.WriteString("namespace OntVerif.Gen.AddBlockOrder\n\n")
-	for _, fn := range []string{"AddBlock", "SubmitBlock", "AddHeader", "saveBlock", "submitBlock"} {
-		fd := findFunc(f, fn)
+	for _, e := range []struct{ fn, lean string }{{"AddBlock", "addBlockFlat"}, {"SubmitBlock", "submitBlockFlat"}, {"AddHeader", "addHeaderFlat"}} {
+		fd := funcs["LedgerStoreImp."+e.fn]
 		if fd == nil {
-			return "", fmt.Errorf("%s: func %s not found", file, fn)
+			return "", fmt.Errorf("%s: method LedgerStoreImp.%s not found", dir, e.fn)
 		}
-		ev := aboEvents(fset, byName, fd.Body.List)
-		hasGuard := false
-		for _, e := range ev {
-			if strings.HasPrefix(e, "guard:") || strings.HasPrefix(e, "errguard:") {
-				hasGuard = true
+		a := &aboFlat{fset: fset, byName: byName, funcs: funcs, stack: map[string]bool{}}
+		args, _ := a.entryArgs(fd)
+		a.run(fd, args, false, false)
+		for i := range a.ev {
+			a.ev[i] = strings.ReplaceAll(a.ev[i], "block.Header", "header")
+		}
+		nG, nW := 0, 0
+		for _, x := range a.ev {
+			if strings.HasPrefix(x, "guard:") || strings.HasPrefix(x, "errguard:") {
+				nG++
+			}
+			if strings.HasPrefix(x, "write:") {
+				nW++
 			}
 		}
-		if !hasGuard {
-			return "", fmt.Errorf("%s:%s: no guard found — unexpected shape", file, fn)
+		if nG == 0 || nW == 0 {
+			return "", fmt.Errorf("%s:%s: flattened pipeline has %d guards and %d writes — unexpected shape", dir, e.fn, nG, nW)
 		}
-		lean := strings.ToLower(fn[:1]) + fn[1:]
-		if fn == "SubmitBlock" {
-			lean = "submitBlockPublic"
-		}
-		fmt.Fprintf(&sb, "/-- %s:%s — top-level statements as (kind, text) events, in source order -/\ndef %s : List (String × String) :=\n  %s\n\n", file, fn, lean, leanPairList(ev))
+		fmt.Fprintf(&sb, "/-- %s: LedgerStoreImp.%s with its same-package pipeline helpers expanded in place — (kind, canonical text) events in execution\norder (non-VBFT path of verifyHeader) -/\ndef %s : List (String × String) :=\n  %s\n\n", dir, e.fn, e.lean, leanPairList(a.ev))
 	}
-	for _, fn := range []string{"saveBlockToBlockStore", "saveBlockToStateStore", "saveBlockToEventStore"} {
-		fd := findFunc(f, fn)
-		if fd == nil {
-			return "", fmt.Errorf("%s: func %s not found", file, fn)
-		}
-		fmt.Fprintf(&sb, "/-- %s:%s — statements as (kind, text) events, in source order -/\ndef %s : List (String × String) :=\n  %s\n\n", file, fn, fn, leanPairList(aboEvents(fset, byName, fd.Body.List)))
-	}
-	// verifyHeader, non-VBFT path: the statements before `if consensusType == "vbft"` and the statements of its else branch
-	vh := findFunc(f, "verifyHeader")
-	if vh == nil {
-		return "", fmt.Errorf("%s: func verifyHeader not found", file)
-	}
-	var solo []string
-	foundSplit := false
-	for i, st := range vh.Body.List {
-		if is, ok := st.(*ast.IfStmt); ok && strings.Contains(exprString(fset, is.Cond), "\"vbft\"") {
-			eb, ok := is.Else.(*ast.BlockStmt)
-			if !ok {
-				return "", fmt.Errorf("%s:verifyHeader: the vbft `if` has no else block", file)
-			}
-			solo = append(aboEvents(fset, byName, vh.Body.List[:i]), aboEvents(fset, byName, eb.List)...)
-			for _, rest := range vh.Body.List[i+1:] {
-				if _, ok := rest.(*ast.ReturnStmt); !ok {
-					return "", fmt.Errorf("%s:verifyHeader: unexpected statement after the consensus-type branch", file)
-				}
-			}
-			foundSplit = true
-			break
-		}
-	}
-	if !foundSplit {
-		return "", fmt.Errorf("%s:verifyHeader: `if consensusType == \"vbft\"` not found", file)
-	}
-	fmt.Fprintf(&sb, "/-- %s:verifyHeader — non-VBFT path (statements before the consensus-type branch, then its else block) -/\ndef verifyHeaderSolo : List (String × String) :=\n  %s\n\n", file, leanPairList(solo))
 	_, vw, err := peWalk(byName, []string{"verifyHeader"})
 	if err != nil {
 		return "", err
